@@ -78,3 +78,7 @@ for name, items in (('msg', msg), ('hist', [e for e, _ in hist]), ('unarmor', un
     with open(os.path.join(out, name + '.hex'), 'w') as f:
         for b in items: f.write((b.hex() if b else '-') + '\n')
     print(name, len(items), 'seeds')
+
+from vlib import explore
+open(os.path.join(c.VERIF, 'explore', 'baseline.sha'), 'w').write(explore.repo_hash() + '\n')
+print('baseline', explore.repo_hash())
